@@ -21,7 +21,8 @@ def callee_name(c):
     return "?"
 
 
-def direct(fn):
+def direct(fn, fieldmap=None):
+    fieldmap = fieldmap or {}
     writes, calls = set(), set()
     todo = [fn]
     while todo:
@@ -44,7 +45,7 @@ def direct(fn):
                 while b["kind"] in ("ParenExpr",):
                     b = b["inner"][0]
                 if t.get("isArrow") or b["kind"] in ("ArraySubscriptExpr", "UnaryOperator"):
-                    writes.add(t["name"])
+                    writes.add(fieldmap.get(t.get("referencedMemberDecl"), t["name"]))
                 elif b["kind"] == "MemberExpr":
                     writes.add(b["name"] + "." + t["name"])
             elif t["kind"] in ("ArraySubscriptExpr", "UnaryOperator"):
@@ -54,7 +55,7 @@ def direct(fn):
 
 
 def summarize(tu):
-    d = {f: direct(n) for f, n in tu.functions.items()}
+    d = {f: direct(n, tu.fieldmap) for f, n in tu.functions.items()}
     python = {}
     writes = {}
     for f, (w, calls) in d.items():
